@@ -274,6 +274,19 @@ def bad_bytes_check(res, tier):
             for chunk in ((1, 2, 3, 5, 1024) if tier == 'quick' else (1, 2, 3, 4, 5, 7, 8, 16, 1024)):
                 for pol in ('quoted', 'quoted_rfc'):
                     items.append((list(data), chunk, pol))
+    # every line-break convention around a decoder-block boundary (io.TextIOWrapper decodes 8192 bytes at a time): a block ending in an empty CR / CRLF / LF line,
+    # the reader's one-character look-ahead after a CR falling on the boundary, the bad byte in the NEXT block
+    for brk in (b'\r', b'\r\n', b'\n'):
+        line = b'ab' + brk
+        m = (8192 - 2 * len(brk) - 1) // len(line)
+        k = 8192 - 2 * len(brk) - m * len(line)
+        block = line * m + b'a' * k + brk + brk          # 8192 bytes ending with an empty line
+        assert len(block) == 8192 and k >= 1, (len(block), k)
+        for tail in (b'cd' + brk + b'\xff' + b'ef' + brk, b'\xffcd' + brk, brk + b'x\xff'):
+            data = block + tail
+            for chunk in ((1, 2, 3, 5, 8191, 1024) if tier == 'quick' else (1, 2, 3, 4, 5, 7, 8, 16, 1024, 4096, 8191, 8192, 8193)):
+                for pol in ('quoted', 'quoted_rfc', 'simple'):
+                    items.append((list(data), chunk, pol))
     outs = run_impl('badbytes', items)
     res.evaluations += len(items)
     nbad = 0
